@@ -37,6 +37,8 @@ func checkC04(c *Ctx) {
 		c13WrapOrKeep(c, c.Func(CorePath, "Lock"), c.Named(CorePath, "lockedWriteSyncer"), "ws", "*go.uber.org/zap/zapcore.lockedWriteSyncer",
 			"no-double-wrap", "wraps-argument", "an already locked syncer is returned as it is; anything else is wrapped in a fresh *lockedWriteSyncer whose ws is the argument")
 	})
+	c.Rule("R4.13", "nothing built from a shared core's or handler's slice shares its backing-array tail (two goroutines logging through one child would write the same element: entries overwrite each other)", 1)
+	c7AppendsAll(c, "R4.13")
 	c.Rule("R4.11", "derived slog handlers never share a slice tail with their parent (a sibling derived later would overwrite the group names of entries being logged)", 0)
 	for _, m := range []string{"WithAttrs", "WithGroup"} {
 		if fn := c.Method(SlogPath, "Handler", m); c.Anchor("R4.11", "zapslog.Handler."+m, fn != nil) {
